@@ -47,6 +47,16 @@ func (id ProposalID) Err() error {
 	case len(id) != SHA256LENGTH:
 		return errors.New("proposal id length is incorrect")
 	}
+	// a proposal id is the hex encoding of a SHA-256 hash. The stores build their keys from it with '_' as the
+	// separator and scan ranges that end at '~': any other alphabet breaks the fund-record scan or hides the
+	// proposal from the scans altogether
+	for _, c := range []byte(id) {
+		switch {
+		case c >= '0' && c <= '9', c >= 'a' && c <= 'f', c >= 'A' && c <= 'F':
+		default:
+			return errors.New("proposal id is not a hexadecimal string")
+		}
+	}
 	return nil
 }
 
